@@ -1431,31 +1431,38 @@ def part_cfg(ck, classes):
 
     def chunks(lo, hi, step, *extra):
         return [(a, min(a + step, hi)) + extra for a in range(lo, hi, step)]
-    # well-formed, depth <= 2, all three spellings
-    p = absorb(pmap(cfg_wf_worker, chunks(0, len(D), 64, (0, 1, 2))), 'cfg_wellformed_depth2')
-    for t in D:
-        m = ref_mask(t)
-        classes.add(('cfg', t[0], 'const-true' if m == 0xffff else 'const-false' if m == 0 else 'depends'))
-    ck.sample({'cfg': render(toks_of(D[len(d1) + 700]), 2), 'true_in': bin(ref_mask(D[len(d1) + 700])).count('1'), 'of': 16})
-    # depth 3 layer: not/all/any over a depth-2 argument, binary with a depth<=SMALL sibling on either side
-    p3 = absorb(pmap(cfg_d3_worker, chunks(len(d1), len(D), 16)), 'cfg_wellformed_depth3_layer')
-    # single-token mutations of the well-formed expressions
     mut_hi = ck.q(len(d1) + 1200, len(D))
-    pm = absorb(pmap(cfg_mut_worker, chunks(0, mut_hi, 16, (0, 1))), 'cfg_token_mutations')
-    ck.part('cfg_token_mutations', mutated_expressions=mut_hi)
-    # all token strings up to a length bound
-    maxlen = ck.q(5, 6)
-    absorb([cfg_str0()], 'cfg_empty')
-    items = []
-    for n in range(1, maxlen + 1):
-        for first in TOKS:
-            items.append((n, first, (0, 1) if n <= 4 else (1,)))
-    ps = absorb(pmap(cfg_str_worker, items), 'cfg_token_strings')
-    ck.part('cfg_token_strings', max_tokens=maxlen, alphabet=len(TOKS))
-    ck.require(tot['malformed'] > 1000 and tot['raised'] > 1000, 'malformed branch not exercised')
-    ck.require(tot['wf'] > 5000, 'well-formed branch not exercised')
-    ck.require(pm['wf'] > 0, 'no mutation stayed well-formed (classifier suspicious)')
-    classes.add(('cfg', 'malformed', 'raise'))
+
+    def token_level():
+        # well-formed, depth <= 2, all three spellings
+        p = absorb(pmap(cfg_wf_worker, chunks(0, len(D), 64, (0, 1, 2))), 'cfg_wellformed_depth2')
+        for t in D:
+            m = ref_mask(t)
+            classes.add(('cfg', t[0], 'const-true' if m == 0xffff else 'const-false' if m == 0 else 'depends'))
+        ck.sample({'cfg': render(toks_of(D[len(d1) + 700]), 2), 'true_in': bin(ref_mask(D[len(d1) + 700])).count('1'), 'of': 16})
+        # depth 3 layer: not/all/any over a depth-2 argument, binary with a depth<=SMALL sibling on either side
+        p3 = absorb(pmap(cfg_d3_worker, chunks(len(d1), len(D), 16)), 'cfg_wellformed_depth3_layer')
+        # single-token mutations of the well-formed expressions
+        pm = absorb(pmap(cfg_mut_worker, chunks(0, mut_hi, 16, (0, 1))), 'cfg_token_mutations')
+        ck.part('cfg_token_mutations', mutated_expressions=mut_hi)
+        # all token strings up to a length bound
+        maxlen = ck.q(5, 6)
+        absorb([cfg_str0()], 'cfg_empty')
+        items = []
+        for n in range(1, maxlen + 1):
+            for first in TOKS:
+                items.append((n, first, (0, 1) if n <= 4 else (1,)))
+        ps = absorb(pmap(cfg_str_worker, items), 'cfg_token_strings')
+        ck.part('cfg_token_strings', max_tokens=maxlen, alphabet=len(TOKS))
+        ck.require(tot['malformed'] > 1000 and tot['raised'] > 1000, 'malformed branch not exercised')
+        ck.require(tot['wf'] > 5000, 'well-formed branch not exercised')
+        ck.require(pm['wf'] > 0, 'no mutation stayed well-formed (classifier suspicious)')
+        classes.add(('cfg', 'malformed', 'raise'))
+
+    if ck.want('cfg') or ck.want('cfgtok'):
+        token_level()
+    if not (ck.want('cfg') or ck.want('cfgchar')):
+        return tot
 
     # ---- character level: the white space between tokens, string literals, pieces ----
     cnt2 = {}
@@ -1555,7 +1562,7 @@ def main():
     if ck.want('order'):
         total += part_order(ck, classes)
     cfg_wf = cfg_mal = 0
-    if ck.want('cfg'):
+    if ck.want('cfg') or ck.want('cfgtok') or ck.want('cfgchar'):      # --only cfgtok / cfgchar: one half of the cfg part (debugging)
         tot = part_cfg(ck, classes)
         total += tot['evals']
         skipped += tot['skipped']
